@@ -562,6 +562,7 @@ func runC07(c *Ctx) {
 	}
 	c07NilPointerFields(c)
 	c07NestedNilableFields(c)
+	c07SharedTypeNode(c)
 	r.Bound = fmt.Sprintf("all %d (compile environment, run environment, program, back end) combinations of the space above, environments of <= 3 names, objects nested <= 2", nPairs)
 	r.Notes = append(r.Notes,
 		"field reordering is applied only to objects whose fields all have the same type and programs read only num fields: the engine reads fields by position, and a by-position read of a differently typed field after an accepted reordering is an invalid memory access (observed: SIGSEGV in vm OP_OBJ_LOAD for w.r.u with w declared {r, p}) that would kill the harness process",
@@ -728,6 +729,83 @@ func c07NestedNilableFields(c *Ctx) {
 				}
 			} else if res.Panic != "" || res.Err == nil || len(tr.log) != 0 {
 				c.fail("C07/mismatch-rejected-nothing-evaluated/nested-nilable-field-nil-vs-set", in, "error returned, nothing evaluated", res.String(), "trace "+fmt.Sprint(tr.log))
+			}
+		}
+	}
+}
+
+// a compile-time environment given as a raw *types.Env in which one type node
+// is shared by two positions (host-built environments never share nodes; a
+// hand-built one may).  The run-time value matches at the first occurrence and
+// differs at the second: whatever the type comparison remembers about nodes it
+// has seen, the second position must still be compared.
+type c07NumPt struct {
+	X float64 `yae:"x"`
+	Y float64 `yae:"y"`
+}
+type c07StrPt struct {
+	X string `yae:"x"`
+	Y string `yae:"y"`
+}
+type c07SegGood struct {
+	Seg struct {
+		From c07NumPt `yae:"from"`
+		To   c07NumPt `yae:"to"`
+	} `yae:"seg"`
+}
+type c07SegBad struct {
+	Seg struct {
+		From c07NumPt `yae:"from"`
+		To   c07StrPt `yae:"to"`
+	} `yae:"seg"`
+}
+type c07SegBad2 struct {
+	Seg struct {
+		From c07StrPt `yae:"from"`
+		To   c07NumPt `yae:"to"`
+	} `yae:"seg"`
+}
+
+func c07SharedTypeNode(c *Ctx) {
+	mkEnv := func() *types.Env {
+		point := types.Obj([]types.Field{{Name: "x", Val: types.Num}, {Name: "y", Val: types.Num}})
+		seg := types.Obj([]types.Field{{Name: "from", Val: point}, {Name: "to", Val: point}})
+		env := types.NewEnv()
+		env.Put("seg", seg)
+		return env
+	}
+	var good c07SegGood
+	good.Seg.From, good.Seg.To = c07NumPt{1, 2}, c07NumPt{4, 6}
+	var bad c07SegBad
+	bad.Seg.From, bad.Seg.To = c07NumPt{1, 2}, c07StrPt{"a", "b"}
+	var bad2 c07SegBad2
+	bad2.Seg.From, bad2.Seg.To = c07StrPt{"a", "b"}, c07NumPt{4, 6}
+	cases := []struct {
+		name     string
+		run      interface{}
+		accepted bool
+	}{
+		{"both points num", good, true},
+		{"second point has str fields", bad, false},
+		{"first point has str fields", bad2, false},
+	}
+	for _, backend := range backends {
+		for _, k := range cases {
+			in := fmt.Sprintf("tr(seg.to.x - seg.from.x) [%s] compile env: raw *types.Env, seg{from, to} sharing ONE point type node; run env: %s", backend, k.name)
+			c.eval(in, true)
+			tr := &trace{}
+			cl, o := compile(newEngine(backend, tr), "tr(seg.to.x - seg.from.x)", mkEnv())
+			if cl == nil {
+				c.fail("C07/setup/compile", in, "compiles", o.String(), "")
+				continue
+			}
+			res := call(cl, k.run)
+			if k.accepted {
+				if !res.ok() || res.V.Type.Kind != types.KNum || res.V.Num().V != 3 {
+					c.fail("C07/equal-types-accepted-evaluates/shared-type-node", in, "3", res.String(), "")
+				}
+			} else if res.Panic != "" || res.Err == nil || len(tr.log) != 0 {
+				c.fail("C07/mismatch-rejected-nothing-evaluated/shared-type-node", in, "error returned, nothing evaluated", res.String(), "trace "+fmt.Sprint(tr.log))
 			}
 		}
 	}
